@@ -6,7 +6,10 @@ import (
 	sdk "github.com/cosmos/cosmos-sdk/types"
 
 	auctionsV2types "github.com/comdex-official/comdex/x/auctionsV2/types"
+	bandtypes "github.com/comdex-official/comdex/x/bandoracle/types"
 	lendtypes "github.com/comdex-official/comdex/x/lend/types"
+	liquiditytypes "github.com/comdex-official/comdex/x/liquidity/types"
+	rewardstypes "github.com/comdex-official/comdex/x/rewards/types"
 	liqV2types "github.com/comdex-official/comdex/x/liquidationsV2/types"
 
 	"vh/sim"
@@ -180,8 +183,88 @@ func (w *world) v1esm(p params) {
 		len(w.App.VaultKeeper.GetVaults(w.Ctx)), w.App.VaultKeeper.GetLengthOfVault(w.Ctx))
 }
 
+// rewardsDue: external reward programmes for harbor vaults and commodo lending plus a liquidity gauge, a day later.
+func (w *world) rewardsDue(p params) {
+	w.base("0.5")
+	w.lending(p.NBorrows)
+	w.vaults(p.NVaults)
+	w.liquidity(30 * time.Second)
+	w.mustBlock(6 * time.Second) // end blocker executes the deposit: u2 receives pool coins
+	pc := w.App.BankKeeper.GetBalance(w.Ctx, w.Users["u2"], "pool1-1")
+	w.note("pool coins of u2: %s", pc)
+	if pc.Amount.IsPositive() {
+		r := w.try(liquiditytypes.NewMsgFarm(w.app["cswap"], 1, w.Users["u2"], pc))
+		w.note("farm ok=%v %s", r.OK, short(r.Err))
+	}
+	g := rewardstypes.NewMsgCreateGauge(w.app["cswap"], w.Users["u1"], w.Time.Add(10*time.Second), rewardstypes.LiquidityGaugeTypeID,
+		24*time.Hour, coin("uasset3", 1000000), 3)
+	g.Kind = &rewardstypes.MsgCreateGauge_LiquidityMetaData{LiquidityMetaData: &rewardstypes.LiquidtyGaugeMetaData{PoolId: 1, IsMasterPool: false}}
+	r := w.try(g)
+	w.note("gauge ok=%v %s", r.OK, short(r.Err))
+	r = w.try(rewardstypes.NewMsgActivateExternalRewardsVault(w.app["harbor"], 1, coin("uasset4", 3000000), 3, 1, w.Users["u1"]))
+	w.note("ext vault rewards ok=%v %s", r.OK, short(r.Err))
+	r = w.try(rewardstypes.NewMsgActivateExternalRewardsLend(w.app["commodo"], 1, []uint64{w.asset["uasset1"], w.asset["uasset2"]}, w.app["cswap"], 1, coin("uasset4", 3000000), 1, 3, 1, w.Users["u1"]))
+	w.note("ext lend rewards ok=%v %s", r.OK, short(r.Err))
+	w.mustBlock(6 * time.Second)
+	w.mustBlock(6 * time.Second)
+}
+
+// oracleLive: the band fetch cycle is configured (stubbed through the band keeper's setters: no IBC here) and answers
+// with the current prices; market and bandoracle do their work at heights divisible by 20.
+func (w *world) oracleLive(rates []uint64, valid bool) {
+	k := w.App.BandoracleKeeper
+	k.SetFetchPriceMsg(w.Ctx, bandtypes.MsgFetchPriceData{OracleScriptID: 12, SourceChannel: "channel-0", AskCount: 1, MinCount: 1,
+		TwaBatchSize: 1, AcceptedHeightDiff: 3, FeeLimit: sdk.NewCoins()})
+	k.SetLastBlockHeight(w.Ctx, 1)
+	k.SetOracleValidationResult(w.Ctx, valid)
+	k.SetLastFetchPriceID(w.Ctx, 7)
+	k.SetFetchPriceResult(w.Ctx, 7, bandtypes.FetchPriceResult{Rates: rates})
+	k.SetCheckFlag(w.Ctx, true)
+	k.SetDiscardData(w.Ctx, bandtypes.DiscardData{BlockHeight: -1, DiscardBool: false})
+}
+
 func stateBuilders() []stateBuilder {
 	return []stateBuilder{
+		{"rewards_due", func(w *world, p params) []string {
+			w.rewardsDue(p)
+			w.advance(25 * time.Hour)
+			return []string{"begin", "end"}
+		}},
+		{"rewards_due_esm", func(w *world, p params) []string {
+			// reward programmes are due while harbor is shut down (the vault programme must refuse)
+			w.rewardsDue(p)
+			w.mintGov()
+			w.esmParams(3600)
+			w.esmExecute()
+			w.advance(25 * time.Hour)
+			return []string{"begin"}
+		}},
+		{"oracle_live", func(w *world, p params) []string {
+			w.auctions(p)
+			w.oracleLive([]uint64{2100000, 1900000, 1000000, 2000000, 1000000, 2000000, 2000000, 2000000}, true)
+			w.atHeight(20*(1+w.Height/20) - 1)
+			w.advance(6 * time.Second)
+			return []string{"begin"}
+		}},
+		{"oracle_zero_prices", func(w *world, p params) []string {
+			// band answers with zero for some assets and fewer rates than priced assets
+			w.auctions(p)
+			w.oracleLive([]uint64{0, 1900000, 0}, true)
+			w.atHeight(20*(1+w.Height/20) - 1)
+			w.advance(6 * time.Second)
+			return []string{"begin"}
+		}},
+		{"day_boundary", func(w *world, p params) []string {
+			// height divisible by 14400 (lend pool maintenance), 150 (swap-fee conversion) and 20 (oracle)
+			w.base("0.5")
+			w.lending(p.NBorrows)
+			w.vaults(p.NVaults)
+			w.liquidity(30 * time.Second)
+			w.mustBlock(6 * time.Second)
+			w.atHeight(14400*(1+w.Height/14400) - 1)
+			w.advance(6 * time.Second)
+			return []string{"begin", "end"}
+		}},
 		{"v1_esm_restart", func(w *world, p params) []string {
 			w.v1esm(p)
 			return []string{"aucv1"}
